@@ -179,6 +179,23 @@ L1ServingViolations(s) ==
       vRoots == IF badRoots = {} THEN <<>>
                 ELSE LET i == CHOOSE j \in badRoots : \A k \in badRoots : j <= k IN
                      <<V("RootMirrors", [idx |-> s.roots[i].i, got |-> s.roots[i], leaves |-> atoms])>>
+      badBlk == IF "byblock" \notin DOMAIN s THEN {} ELSE
+                { i \in DOMAIN s.byblock :
+                    LET q == s.byblock[i]
+                        upto == { j \in 1..n : recs[j].b <= q.b }
+                        from == { j \in 1..n : recs[j].b >= q.b } IN
+                    ~( /\ IF q.b > LastNum THEN q.uc # "ok"
+                          ELSE IF upto = {} THEN q.uc = "notfound"
+                          ELSE q.uc = "ok" /\ q.ui = Cardinality(upto) - 1           \* the latest leaf at or below the block
+                       /\ IF from = {} THEN q.ac = "notfound"
+                          ELSE q.ac = "ok" /\ q.ai = n - Cardinality(from) ) }       \* the first leaf at or above the block
+      vBlk == IF badBlk = {} THEN <<>>
+              ELSE LET i == CHOOSE j \in badBlk : \A k \in badBlk : j <= k IN
+                   <<V("InfoByBlock", [got |-> s.byblock[i], leaves |-> [j \in 1..n |-> <<recs[j].x, recs[j].b>>]])>>
+      vEnds == IF "ends" \notin DOMAIN s
+                  \/ (n = 0 /\ s.ends.fc = "notfound" /\ s.ends.lc = "notfound")
+                  \/ (n > 0 /\ s.ends.fc = "ok" /\ s.ends.fi = 0 /\ s.ends.lc = "ok" /\ s.ends.li = n - 1)
+               THEN <<>> ELSE <<V("InfoByBlock", [ends |-> s.ends, n |-> n])>>
       vLastRoot == IF (n = 0 /\ s.lastroot.c = "notfound")
                       \/ (n > 0 /\ s.lastroot.c = "ok" /\ s.lastroot.n = RootName(atoms, n - 1) /\ s.lastroot.ri = n - 1)
                    THEN <<>> ELSE <<V("RootMirrors", [lastroot |-> s.lastroot, leaves |-> atoms])>>
@@ -224,7 +241,7 @@ L1ServingViolations(s) ==
                                                         THEN "F10" ELSE "none"])>>
                ELSE <<>>
       vAmb == IF "ambiguous" \in DOMAIN s THEN <<V("INFRA-AmbiguousNames", s.ambiguous)>> ELSE <<>>
-  IN vLast \o vInfos \o vGer \o vRoots \o vLastRoot \o vProofs \o vULast \o vVer \o vU \o vTwin \o vDead \o vAmb
+  IN vLast \o vInfos \o vGer \o vBlk \o vEnds \o vRoots \o vLastRoot \o vProofs \o vULast \o vVer \o vU \o vTwin \o vDead \o vAmb
 
 (* F5: the block contains an effective rollup-tree update that brings the tree back to a state it already had in the
    surviving history (its root hash is the primary key of the root table) *)
